@@ -10,7 +10,7 @@ def is_dyadic(x):
 
 class C06(Prop):
     layouts = True
-    translators = ['flow', 'bip', 'posgraph', 'validators']   # the matching routine birkhoff_von_neumann calls (flow.py) regenerated from the source on every run
+    translators = ['flow', 'bip', 'posgraph', 'validators', 'bvnloop']   # the matching routine birkhoff_von_neumann calls (flow.py) regenerated from the source on every run
     pid = "C06"
     sources = ["socialchoicekit/bistochastic.py", "socialchoicekit/flow.py"]
     groups = {"bvn": Group("bvn", "From SCK Require Import FlowModel BipModel BvN2 RunBvN.", "RunBvN.bvn_case", "RunBvN.chk_bvn"),
